@@ -611,6 +611,10 @@ def run_file(res, origin, raw, desc, rng, per_file):
             except Exception:
                 o = workload.load(raw)
                 S0_case = S0
+        if rng.random() < 0.25:
+            # the application looks at what it loaded first (play-order view, tabular views, printing): looking is not touching
+            workload.look_at(o)
+            res.count("edits_after_looking_at_the_loaded_object")
         try:
             e.apply(o)
         except Exception as ex:
